@@ -199,6 +199,41 @@ pub fn ks_main(generate: fn(&str, u64) -> Vec<Rec>, exec: fn(&Rec) -> Ran) {
     }
 }
 
+/// Cross-backend identity inside the common magnitude domain: when every radix of the record is small enough for the
+/// FFT64 family to be exact (<= 17 bits), the record is re-run on the three other backends with the same inputs and
+/// the outputs (output vectors and every observation except the trailing flag vector) must be identical.
+/// The verdict (1 identical, 0 different, 2 not applicable) is appended to the flag vector (last observation).
+pub fn exec_xbe(r: &Rec, run: fn(&Rec) -> Ran, has_flags: fn(i64) -> bool) -> Ran {
+    let (vs, res) = run(r);
+    let res = match res {
+        Ok((mut obs, out)) if has_flags(r.code) && !obs.is_empty() => {
+            let small = [3usize, 6, 9].iter().all(|i| r.ps[*i] <= 17) && r.ps[HDR..].len() < 40
+                && (r.code < 4021 || r.code >= 5000 || r.ps.get(HDR + 7).is_none_or(|b| *b <= 17));
+            let mut verdict = 2i128;
+            if small {
+                verdict = 1;
+                for be in 1..=4i128 {
+                    if be == r.ps[0] { continue; }
+                    let mut r2 = r.clone();
+                    r2.ps[0] = be;
+                    r2.vs = vs.clone();
+                    match run(&r2) {
+                        (_, Ok((obs2, out2))) => {
+                            let k = obs.len() - 1;
+                            if out2 != out || obs2.len() != obs.len() || obs2[..k] != obs[..k] { verdict = 0; }
+                        }
+                        _ => verdict = 0,
+                    }
+                }
+            }
+            obs.last_mut().unwrap().insert(1, verdict);
+            Ok((obs, out))
+        }
+        other => other,
+    };
+    (vs, res)
+}
+
 /// free input `i` of the record when present and non-empty, else generated
 pub fn input_or<F: FnOnce() -> Vec<i128>>(r: &Rec, i: usize, f: F) -> Vec<i128> {
     match r.vs.get(i) { Some(v) if !v.is_empty() => v.clone(), _ => f() }
